@@ -187,22 +187,59 @@ def term(c, out):
 class record_ranges:
     """Harness-side wrapper (no change to /repo): logs the reduced range handed to split_subnet each time
     adaptive_link_wrap shrinks the range of an oversize group."""
-    def __init__(self, log):
+    def __init__(self, log, faults=None):
         self.log = log
+        self.faults = faults if faults is not None else []
+
+    LINKERS = ['subnet_linker_recursive', 'subnet_linker_nonrecursive', 'subnet_linker_numba', 'subnet_linker_drop']
 
     def __enter__(self):
         from trackpy.linking import linking as L
         self.L, self.orig = L, L.split_subnet
-        log, orig = self.log, self.orig
+        log, orig, faults = self.log, self.orig, self.faults
+        in_force = {}          # id(source point) -> the range its candidates were last pruned at by split_subnet
 
         def split_subnet(source, dest, new_range):
             log.append(float(new_range))
+            for sp in source:
+                in_force[id(sp)] = float(new_range)
             return orig(source, dest, new_range)
         L.split_subnet = split_subnet
+
+        # the subnet linkers are looked up by name when a Linker is built: wrap them to see with which range (= cost of
+        # not linking) every group is solved.  A group produced by a split must be solved with the range of THAT split.
+        self.saved = {}
+        for name in self.LINKERS:
+            fn = getattr(L, name)
+            self.saved[name] = fn
+
+            def wrapped(source_set, dest_set, search_range, *a, _fn=fn, **kw):
+                want = {in_force.get(id(sp)) for sp in source_set}
+                if len(want) == 1 and None not in want:
+                    r = want.pop()
+                    if float(search_range) != r and len(faults) < 5:
+                        faults.append('a group of %d sources split off at range %r is solved with range %r as the cost of not linking' % (len(source_set), r, float(search_range)))
+                elif want == {None}:
+                    pass       # top-level group of this step
+                return _fn(source_set, dest_set, search_range, *a, **kw)
+            setattr(L, name, wrapped)
+
+        # a new step starts with fresh top-level groups: forget what earlier steps recorded for remembered points
+        self.orig_compute = None
+        from trackpy.linking import subnet as SN
+        self.SN, self.orig_compute = SN, SN.Subnets.compute
+
+        def compute(subnets_obj, _orig=self.orig_compute):
+            in_force.clear()
+            return _orig(subnets_obj)
+        SN.Subnets.compute = compute
         return self
 
     def __exit__(self, *a):
         self.L.split_subnet = self.orig
+        for name, fn in self.saved.items():
+            setattr(self.L, name, fn)
+        self.SN.Subnets.compute = self.orig_compute
 
 
 def ladder_fault(c, ranges, exact=True):
@@ -223,9 +260,9 @@ def ladder_fault(c, ranges, exact=True):
     return None
 
 
-def run_impl(c, ranges=None):
+def run_impl(c, ranges=None, faults=None):
     stop = float((min(c['sr']) if isinstance(c['sr'], tuple) else c['sr']) * c['stop_rel'])   # a tuple of equal ranges is treated by the code as that one range
-    with record_ranges(ranges if ranges is not None else []):
+    with record_ranges(ranges if ranges is not None else [], faults):
         return linkgen.run_link_iter(c['frames'], c['sr'], memory=c['memory'], link_strategy=c['strategy'], max_size=c['max_size'],
                                      adaptive=(stop, float(c['step'])))
 
@@ -345,9 +382,9 @@ def run(chk):
         c02.safe_strategy(c)
         if degenerate(c):
             chk.tally('skipped: pair within 1e-9 of a reduced range (float boundary)'); continue
-        ranges = []
-        out = run_impl(c, ranges)
-        why = ladder_fault(c, ranges)
+        ranges, faults = [], []
+        out = run_impl(c, ranges, faults)
+        why = ladder_fault(c, ranges) or (faults[0] if faults else None)
         if ranges:
             chk.tally('reduced ranges observed (deepest level %d)' % len(set(ranges)))
         if why:
@@ -378,11 +415,11 @@ def run(chk):
         if linkgen.max_inrange(c['frames'], c['sr'], c['memory']) > 8:
             continue
         c02.safe_strategy(c)
-        ranges = []
-        out = run_impl(c, ranges)
+        ranges, faults = [], []
+        out = run_impl(c, ranges, faults)
         chk.count(('ladder', jsonable(c, out)), bool(ranges))
         chk.tally('decimal step %s, unit 2^%d' % (c['step'], uexp))
-        why = ladder_fault(c, ranges, exact=False)
+        why = ladder_fault(c, ranges, exact=False) or (faults[0] if faults else None)
         if why:
             chk.violation('adaptive link_iter: reduced range off the ladder', why, dict(kind='adaptive', code=20, case=jsonable(c, out), ranges=ranges, decimal=True))
     if metas:
@@ -423,10 +460,10 @@ def replay(chk, path):
     ndim = max([f.shape[1] for f in frames if f.size] or [1])
     c = dict(frames=[f.reshape(len(f), ndim) for f in frames], sr=(tuple(Fraction(x) for x in cj['search_range']) if isinstance(cj['search_range'], list) else Fraction(cj['search_range'])), memory=cj['memory'], ndim=ndim, max_size=cj['max_size'],
              strategy=cj['link_strategy'], step=Fraction(cj['adaptive_step']), stop_rel=Fraction(cj['adaptive_stop_rel']))
-    ranges = []
-    out = run_impl(c, ranges)
+    ranges, faults = [], []
+    out = run_impl(c, ranges, faults)
     rp = json.load(open(path))['replay']
-    why = ladder_fault(c, ranges, exact=not rp.get('decimal'))
+    why = ladder_fault(c, ranges, exact=not rp.get('decimal')) or (faults[0] if faults else None)
     print('replay: reduced ranges used', ranges)
     if why:
         chk.count(('replay', cj), True)
